@@ -26,12 +26,34 @@ def _eq(a, b):
     return ast.dump(a) == ast.dump(b)
 
 
-def match(pat, node, b=None):
+_DEFS = [None]
+
+
+def defs_of(fnode):
+    """single-assignment locals of a function: name -> defining expression.  Passed as `defs`
+    to match / find / any_of, a pattern that expects an expression also matches a local name
+    whose (only) definition matches it - `t = g(a); y = f(t)` is read as `y = f(g(a))`."""
+    cnt, val = {}, {}
+    for n in ast.walk(fnode):
+        if isinstance(n, ast.Name) and isinstance(n.ctx, (ast.Store, ast.Del)):
+            cnt[n.id] = cnt.get(n.id, 0) + 1
+        if isinstance(n, ast.Assign) and len(n.targets) == 1 and isinstance(n.targets[0], ast.Name):
+            val[n.targets[0].id] = n.value
+    a = fnode.args
+    params = {x.arg for x in a.posonlyargs + a.args + a.kwonlyargs}
+    return {k: v for k, v in val.items() if cnt.get(k) == 1 and k not in params}
+
+
+def match(pat, node, b=None, defs=None):
     """match pattern (source text or AST) against node; returns the extended binding or None"""
     if isinstance(pat, str):
         pat = _parse(pat)
     b = dict(b or {})
-    return b if _m(pat, node, b) else None
+    _DEFS.append(defs)
+    try:
+        return b if _m(pat, node, b) else None
+    finally:
+        _DEFS.pop()
 
 
 _FLIP = {ast.Eq: ast.Eq, ast.NotEq: ast.NotEq, ast.Lt: ast.Gt, ast.Gt: ast.Lt, ast.LtE: ast.GtE, ast.GtE: ast.LtE}
@@ -63,6 +85,16 @@ def _m(p, n, b):
 
 
 def _m0(p, n, b):
+    defs = _DEFS[-1]
+    if defs and isinstance(n, ast.Name) and isinstance(getattr(n, "ctx", None), ast.Load) and n.id in defs and isinstance(p, ast.expr) \
+            and not (isinstance(p, ast.Name) and (p.id.startswith(("L_", "X_")) or p.id == n.id)):
+        # the code names an intermediate value the pattern spells out
+        b1 = dict(b)
+        if _m(p, defs[n.id], b1):
+            b.clear()
+            b.update(b1)
+            return True
+        return False
     if isinstance(p, list):
         if not isinstance(n, list) or len(p) != len(n):
             return False
@@ -118,7 +150,7 @@ def _m0(p, n, b):
     return True
 
 
-def find(root, pat, b=None):
+def find(root, pat, b=None, defs=None):
     """all (node, binding) with node inside root (a node or a list of nodes) matching pat"""
     if isinstance(pat, str):
         pat = _parse(pat)
@@ -126,15 +158,15 @@ def find(root, pat, b=None):
     roots = root if isinstance(root, list) else [root]
     for r in roots:
         for n in ast.walk(r):
-            bb = dict(b or {})
-            if _m(pat, n, bb):
+            bb = match(pat, n, b, defs)
+            if bb is not None:
                 out.append((n, bb))
     return out
 
 
-def any_of(node, pats, b=None):
+def any_of(node, pats, b=None, defs=None):
     for p in pats:
-        r = match(p, node, b)
+        r = match(p, node, b, defs)
         if r is not None:
             return r
     return None
